@@ -14,6 +14,7 @@ import GfsProofs.ListGroup
 import GfsProofs.ListOrderAux
 
 namespace Gfs.Proofs
+namespace Order
 open Gfs Gfs.Proofs.ListAux
 
 abbrev Key := Bytes × Bytes × Bytes
@@ -466,4 +467,5 @@ theorem findInItems_order (o : ListOpts) (items items' : List FileItem) (hperm :
       | false => simp [hsg] at hsing
       | true => simp only [hsg, if_true] at hsing ⊢; exact (singlesOf_mem_perm o hperm s).2 hsing
 
+end Order
 end Gfs.Proofs
